@@ -357,6 +357,14 @@ class MergerConfig:
         """Load the external configuration file."""
         config = configparser.ConfigParser()
 
+        # The option names of the [rules] and [keys] sections are YAML Paths,
+        # which are case-sensitive; ConfigParser lower-cases every option name
+        # by default.  Keep doing so only for the [defaults] option names.
+        config.optionxform = lambda option: (   # type: ignore
+            option.lower()
+            if option.lower() in ("anchors", "hashes", "arrays", "aoh", "sets")
+            else option)
+
         # Load the configuration file when one is specified
         config_file = (
             self.args.config
